@@ -117,6 +117,10 @@ def dcops(draw, min_vars=1, max_vars=6, max_dom=3, min_dom=1, max_constraints=7,
             else:
                 v["cost"] = {"kind": "dict",
                              "costs": draw(st.lists(costs, min_size=len(domains[d]), max_size=len(domains[d])))}
+                if draw(st.booleans()):
+                    v["cost"]["key_order"] = draw(st.integers(0, 23))
+                if draw(st.integers(0, 3)) == 0:
+                    v["cost"]["drop_zero"] = True
         if initial and draw(st.booleans()):
             v["initial"] = draw(st.sampled_from(domains[d]))
         variables.append(v)
